@@ -53,7 +53,6 @@ E.HOOKS["index"].append(_index)
 
 pure("numpy.histogram", "object")
 pure("numpy.arange", "ndarray")
-pure("numpy.log", "ndarray")
 
 
 @method("ndarray", "astype")
